@@ -282,3 +282,89 @@ Proof.
   intros h e b He Hb. unfold blocks_of_history. apply in_flat_map. exists e. split; [assumption|].
   destruct Hb as [Hb|Hb]; subst e; left; reflexivity.
 Qed.
+
+(* the invariant holds after every prefix [pre ++ q] of a well-formed history [pre ++ q ++ r] *)
+Lemma history_invariant : forall p g hf pre post,
+  wf_history p true g hf -> hf = pre ++ post ->
+  (forall e, In e pre -> exists sh w, e = EvOwner sh w) ->
+  (forall e, In e post -> forall sh w, e <> EvOwner sh w) ->
+  let s1 := fold_left (step p true) pre (init_sim g) in
+  let B := g :: blocks_of_history hf in
+  (forall e, In e post -> ok_event g B e) /\
+  forall q r, post = q ++ r -> Inv p g (s_own s1) B (fold_left (step p true) q s1).
+Proof.
+  intros p g hf pre post Hwf Hsplit Hpre Hpost s1 B.
+  pose proof (wfh_chain _ _ _ _ Hwf) as Hsims.
+  pose proof (wfh_blockids _ _ _ _ Hwf) as Hids. fold B in Hids.
+  assert (Hnog : ~ In (EvAttach g) hf). { apply (no_attach_genesis p true g hf Hsims). }
+  assert (Hok : forall e, In e post -> ok_event g B e).
+  { intros e He. assert (Hehf : In e hf). { rewrite Hsplit. apply in_or_app. right. assumption. }
+    split; [|split].
+    - apply Hpost. assumption.
+    - intros b' Hb'. right. apply (blocks_of_history_in hf e b' Hehf Hb').
+    - intros Heg. subst e. apply Hnog. apply (wfh_announced _ _ _ _ Hwf). assumption. }
+  split; [assumption|].
+  destruct (run_owners p true pre (init_sim g) Hpre) as [Hn1 Hw1]. fold s1 in Hn1, Hw1.
+  cbn [init_sim s_node s_wallet] in Hn1, Hw1.
+  assert (Hwfg : wf_chain [g]). { apply (Hsims (init_sim g)). apply sims_head. }
+  assert (Hinv1 : Inv p g (s_own s1) B s1).
+  { unfold Inv. rewrite Hn1, Hw1. split; [reflexivity|split; [assumption|split; [exists []; reflexivity|split]]].
+    - intros z [Hz|[]]. subst z. left. reflexivity.
+    - exists [g]. split; [assumption|split; [exists []; reflexivity|split]].
+      + intros z [Hz|[]]. subst z. left. reflexivity.
+      + destruct (wf_genesis _ Hwfg) as [g' [rest [Hc [Hh0 [Htx _]]]]]. inversion Hc. subst g' rest.
+        symmetry. apply L_genesis; assumption. }
+  intros q r Hq. apply (Inv_run p g (s_own s1) B Hids).
+  - assumption.
+  - intros s' Hs'. apply Hsims. rewrite Hsplit, Hq. apply sims_app_in. fold s1.
+    apply sims_prefix_in. assumption.
+  - intros e He. apply Hok. rewrite Hq. apply in_or_app. left. assumption.
+Qed.
+
+(* T4 *)
+Theorem history_theorem : forall p g h b,
+  wf_history p true g (h ++ [EvProcess b]) ->
+  last (s_node (run p true g h)) g = b ->
+  let s := run p true g (h ++ [EvProcess b]) in
+  forall w, model_report (s_wallet s) w = spec_report p (own_of (s_own s)) (s_node s) w.
+Proof.
+  intros p g h b Hwf Hlast s w.
+  destruct (wfh_owners _ _ _ _ Hwf) as [pre [post [Hsplit [Hpre Hpost]]]].
+  assert (Hpost_ne : post <> []).
+  { intros Hnil. subst post. rewrite app_nil_r in Hsplit.
+    assert (Hin : In (EvProcess b) pre). { rewrite <- Hsplit. apply in_or_app. right. left. reflexivity. }
+    destruct (Hpre _ Hin) as [sh [w' He]]. discriminate. }
+  destruct (exists_last Hpost_ne) as [post' [elast Hpost']].
+  assert (Hh : h = pre ++ post' /\ elast = EvProcess b).
+  { rewrite Hpost', app_assoc in Hsplit. apply app_inj_tail in Hsplit.
+    destruct Hsplit as [H1 H2]. split; [assumption|symmetry; assumption]. }
+  destruct Hh as [Hh Hel]. subst elast.
+  destruct (history_invariant p g _ pre post Hwf Hsplit Hpre Hpost) as [Hok Hinv].
+  specialize (Hinv post' [EvProcess b] Hpost').
+  set (s1 := fold_left (step p true) pre (init_sim g)) in *.
+  set (B := g :: blocks_of_history (h ++ [EvProcess b])) in *.
+  assert (Hrun_h : run p true g h = fold_left (step p true) post' s1).
+  { unfold run. rewrite Hh, fold_left_app. reflexivity. }
+  rewrite <- Hrun_h in Hinv.
+  destruct Hinv as [Hown [Hwfn [Hgn [HnB [c [Hwfc [Hgc [HcB Hst]]]]]]]].
+  assert (Hokb : ok_event g B (EvProcess b)).
+  { apply Hok. rewrite Hpost'. apply in_or_app. right. left. reflexivity. }
+  destruct Hokb as [_ [HbB Hng]].
+  assert (Hbg : b <> g). { intros Heq. apply Hng. rewrite Heq. reflexivity. }
+  (* the node's chain ends in b, which is not the genesis *)
+  set (n := s_node (run p true g h)) in *.
+  assert (Hnne : n <> []). { apply wf_nonempty. assumption. }
+  assert (Hn : n = removelast n ++ [b]). { rewrite <- Hlast. apply app_removelast_last. assumption. }
+  assert (Hn1 : removelast n <> []).
+  { intros Hnil. rewrite Hnil in Hn. destruct Hgn as [n' Hgn]. rewrite Hgn in Hn. cbn [app] in Hn.
+    inversion Hn. symmetry in H0. contradiction. }
+  assert (Hs : s = step p true (run p true g h) (EvProcess b)).
+  { unfold s, run. rewrite fold_left_app. reflexivity. }
+  assert (Hids : forall b1 b2, In b1 B -> In b2 B -> b_id b1 = b_id b2 -> b1 = b2).
+  { apply (wfh_blockids _ _ _ _ Hwf). }
+  pose proof (process_reorg_gen p (own_of (s_own s1)) n c b (removelast n) [] Hwfn Hwfc
+                (same_genesis_from_g g _ _ Hgc Hgn) (ids_agree_B B Hids _ _ HcB HnB) Hn Hn1) as Hproc.
+  rewrite <- Hn in Hproc.
+  rewrite Hs. cbn [step s_wallet s_own s_node]. fold n. rewrite Hown, Hst.
+  unfold process_or_keep. rewrite Hproc. apply report_L. assumption.
+Qed.
